@@ -36,6 +36,9 @@ func suiteConc(c *Ctx) {
 		concCuckoo(c, g)
 		concCuckooRemoveStorm(c, g)
 		concSnapshotVsUpdate(c)
+		if r%2 == 0 {
+			concCuckooRemoveStormWide(c)
+		}
 		concTopK(c, g)
 		for rep := 0; rep < 4; rep++ {
 			concTopKHot(c, []int{2, 4, 8, 16}[rep])
@@ -745,4 +748,44 @@ func concSnapshotVsUpdate(c *Ctx) {
 		}
 	}
 	c.rep.Cases++
+}
+
+// concCuckooRemoveStormWide: one bucket of 1024 slots, nearly full, so that finding an entry is a long
+// scan; one copy of the target, eight goroutines remove it at once.  Exactly one succeeds and Length
+// drops by one - a probe that is separated from the removal has a wide window here.
+func concCuckooRemoveStormWide(c *Ctx) {
+	f := gostatix.NewCuckooFilterWithRetries(1, 1024, 6, 5)
+	for i := 0; i < 1000; i++ {
+		safely(func() { f.Insert([]byte(fmt.Sprintf("filler-%d", i)), false) })
+	}
+	c.rep.Cases++
+	for r := 0; r < 60; r++ {
+		e := []byte(fmt.Sprintf("wide-storm-%d", r))
+		ok := false
+		safely(func() { ok = f.Insert(e, false) })
+		if !ok {
+			continue
+		}
+		before := f.Length()
+		var succ int64
+		var wg sync.WaitGroup
+		start := make(chan struct{})
+		for w := 0; w < 8; w++ {
+			wg.Add(1)
+			go func() {
+				defer wg.Done()
+				<-start
+				if f.Remove(e) {
+					atomic.AddInt64(&succ, 1)
+				}
+			}()
+		}
+		close(start)
+		wg.Wait()
+		c.rep.Ops["cuckoo.remove-storm-wide"]++
+		if succ != 1 || f.Length() != before-1 {
+			c.fail([]string{"C07", "C13"}, "conc-remove-more-than-stored", fmt.Sprintf("CuckooFilter(1 bucket of 1024 slots, %d entries): 8 goroutines removed the single copy of %q at once: %d removes reported success, Length went from %d to %d", before, e, succ, before, f.Length()), map[string]interface{}{"structure": "CuckooFilter", "goroutines": 8})
+			return
+		}
+	}
 }
